@@ -225,6 +225,11 @@ func NewMsgBlockTxsFull(
 		Bitmaps: maps.Clone(bitmaps),
 		TxsRaw:  slices.Clone(txs),
 	}
+	// The 4-element form is selected by a non-nil bitmaps map; a nil argument
+	// means "no bitmaps", not "2-element form" (which would drop the point)
+	if m.Bitmaps == nil {
+		m.Bitmaps = map[uint16]uint64{}
+	}
 	return m
 }
 
